@@ -30,7 +30,7 @@ TIERS = {
     "quick": {"worlds": 420, "wall": 170, "cap": 16, "limit": 90.0},
     "thorough": {"worlds": 5000, "wall": 1700, "cap": 80, "limit": 240.0},
 }
-GATES = ("reuse.cached", "reuse.memo", "reuse.retain", "worlds.scaled", "worlds.offset_rows", "worlds.slack_rows", "worlds.int_bounds", "worlds.dup_coo", "worlds.zero_in_start")
+GATES = ("reuse.cached", "reuse.memo", "worlds.scaled", "worlds.offset_rows", "worlds.slack_rows", "worlds.int_bounds", "worlds.dup_coo", "worlds.zero_in_start")
 
 
 def generate(rng, seed, index, tier):
